@@ -16,6 +16,9 @@ import (
 	"math/big"
 	"sync"
 	"testing"
+	"os"
+	"path/filepath"
+	"github.com/primevprotocol/mev-commit/pkg/keysigner"
 	"time"
 
 	"github.com/ethereum/go-ethereum/crypto"
@@ -155,6 +158,10 @@ type c18In struct {
 	Compressed   string `json:"compressed"`   // prim: 33-byte public key
 	Uncompressed string `json:"uncompressed"` // prim: 65-byte public key
 	ViaNew       bool   `json:"via_new"`      // also started a real Service with this key
+	// via_new: the key comes from the node's own file-backed signer, and the key file is replaced
+	// by another key after the signer was created and before the Service is started (the node keeps
+	// signing with the key it loaded; its transport identity must be that key's too)
+	FileSigner bool `json:"file_signer,omitempty"`
 }
 type c18Obs struct {
 	Pad      string `json:"pad"`
@@ -202,7 +209,32 @@ func c18Run(in c18In) (obs c18Obs) {
 	}
 	obs.AddrPeer = hex.EncodeToString(a.Bytes())
 	if in.ViaNew {
-		ks := mockkeysigner.NewMockKeySigner(priv, crypto.PubkeyToAddress(priv.PublicKey))
+		var ks keysigner.KeySigner = mockkeysigner.NewMockKeySigner(priv, crypto.PubkeyToAddress(priv.PublicKey))
+		if in.FileSigner {
+			dir, err := os.MkdirTemp("", "verif-c18-")
+			if err != nil {
+				obs.Err = "tmp"
+				return obs
+			}
+			defer os.RemoveAll(dir)
+			path := filepath.Join(dir, "key")
+			if err := os.WriteFile(path, []byte(hex.EncodeToString(pad)), 0o600); err != nil {
+				obs.Err = "tmp"
+				return obs
+			}
+			pks, err := keysigner.NewPrivateKeySigner(path)
+			if err != nil {
+				obs.Err = "filesigner"
+				return obs
+			}
+			other, _ := crypto.GenerateKey()
+			_ = os.WriteFile(path, []byte(hex.EncodeToString(crypto.FromECDSA(other))), 0o600)
+			if pks.GetAddress() != crypto.PubkeyToAddress(priv.PublicKey) {
+				obs.Err = "filesigner-address"
+				return obs
+			}
+			ks = pks
+		}
 		svc, err := New(&Options{KeySigner: ks, Secret: "verif", ListenPort: 0, ListenAddr: "127.0.0.1", PeerType: p2p.PeerTypeBidder,
 			Logger: util.NewTestLogger(discard{})})
 		if err != nil {
@@ -239,6 +271,19 @@ func TestVerifC18(t *testing.T) {
 	out.emit(mk("one", big.NewInt(1), true), c18Run(mk("one", big.NewInt(1), true)))
 	nm1 := new(big.Int).Sub(n, big.NewInt(1))
 	out.emit(mk("n-1", nm1, true), c18Run(mk("n-1", nm1, true)))
+	for k := 0; k < vcount(4, 40); k++ {
+		b := rng.bytes(32 - k%3)
+		if b[0] == 0 {
+			b[0] = 1
+		}
+		d := new(big.Int).SetBytes(b)
+		if d.Cmp(n) >= 0 {
+			continue
+		}
+		in := mk("file-signer-key-file-replaced", d, true)
+		in.FileSigner = true
+		out.emit(in, c18Run(in))
+	}
 	per := vcount(6, 60)
 	for k := 0; k <= 31; k++ {
 		for j := 0; j < per; j++ {
